@@ -1,19 +1,241 @@
 //! C15 executor.  One case per line:
 //!   `sub <ty> <x> <lim>` / `sup <ty> <x> <lim>`   x = bit pattern of the mask as an unsigned decimal; prints
-//!                                     `R v v v ...` (each item's bit pattern, unsigned decimal)
+//!                                     `R v v v ...` (each item's bit pattern, unsigned decimal) of `.take(lim)`
 //!   `np a b c ...`                    next_permutation on a Vec<i64>; prints `R <0|1> a b c ...`
-//!   `ip <lim> a b c ...`              iter_permutations(Vec<i64>); prints `R a b c ; a c b ; ...` (every item closed by `;`)
+//!   `ip <lim> a b c ...`              iter_permutations(Vec<i64>).take(lim); prints `R a b c ; a c b ; ...` (every item closed by `;`)
 //!   `n4|n4d|n8 n m i j`               prints `R a b a b ...`
 //!   `subck|supck <ty> <x> <lim>`     implementation-level search (checks/c15.py `extra`): runs the iterator without printing
 //!                                     the items; prints `K <count> <ok> <first> <last>` where ok = 1 iff every item is a
 //!                                     submask (supermask) of x and the items are strictly decreasing (increasing) as
 //!                                     unsigned bit patterns
-//! Iterators are cut after `lim` items; the generator passes one more than the longest correct output, so a cut
-//! output is always a wrong output (a broken iterator that never ends cannot hang or flood the check).
+//! Iterators are cut after `lim` items; for a full listing the generator passes one more than the longest correct
+//! output, so a cut output is always a wrong output (a broken iterator that never ends cannot hang or flood the check).
+//!
+//! Ops that print the SAME observation line as one of the ops above but obtain it differently, and check the rest of
+//! the `Iterator` protocol / independence of several live iterators on the way.  Any internal inconsistency prints
+//! `F <what>` instead of `R ...` (never a legal observation):
+//!   `subm|supm <ty> <x> <lim> <k>`   = `sub|sup`: items through a `size_hint()`/`next()` loop; size_hint must bracket the
+//!                                     number of remaining items; `count`, `last`, `nth(k)`, `fold`, `for_each`, `collect`,
+//!                                     `extend`, `skip`, `step_by`, `by_ref` + `take`, `zip` of two instances, a half-used
+//!                                     dropped instance, and `fold` / `for_each` / `count` / `last` / `all` / `collect` on an
+//!                                     iterator already advanced by `next()` / `nth()` / `skip()` — all compared with the item
+//!                                     list
+//!   `subnest|supnest <ty> <x> <lim>` = `sub|sup`: `for s in iter(x) { for t in iter(s) {..} }`; the outer items are printed,
+//!                                     every inner listing is checked (first = s, strictly monotone, all sub/supermasks
+//!                                     of s, 2^free items, last = 0 / all-ones)
+//!   `subzip|supzip <ty> <x> <lim> <y> <z>` = `sub|sup` of x while iter_submasks(y) and iter_supermasks(z) are alive and
+//!                                     polled in turn (both checked like an inner listing); before that half-used
+//!                                     iterators over y and z are dropped
+//!   `ipm <lim> <k> d..`              = `ip`: protocol checks as `subm`
+//!   `ipzip <lim> <n1> d1.. d2..`     = `ip` of d1 while iter_permutations(d2) is polled in turn (compared with its own
+//!                                     listing obtained alone)
+//!   `n4m|n4dm|n8m n m i j k`         = `n4|n4d|n8`: protocol checks; a second iterator for the transposed cell is
+//!                                     polled in turn
+//!   `npg <kind> d..`                 = `np` with another element type: `u8`, `str` (String "%05d"), `tup` ((i32, i32),
+//!                                     v = 4a + b), `key` (struct ordered by its key only, carrying a tag; the multiset of
+//!                                     (key, tag) objects must be preserved), `unit` (Vec<()>), `drop` (counts clones and
+//!                                     drops: nothing leaked, nothing dropped twice), `arr` ([i64; N] for N <= 6 / boxed slice)
+//!   `ipg <kind> <lim> d..`           = `ip` with element type `u8|str|tup|drop`
+//!   `npsub <a> <b> v..`              = `np` on `v[a..b]` through `next_permutation(&mut v[a..b])`; the elements outside
+//!                                     the range must not change; prints `R <0|1> v[a..b]`
 use rlib_iter::*;
+use std::cell::Cell;
+use std::cmp::Ordering;
+use std::rc::Rc;
 use vh::p;
 
 const NB_LIMIT: usize = 9;
+
+/// The parts of the `Iterator` contract that every implementation must satisfy, checked against the item list
+/// obtained by plain `next()` calls.  `mk` creates a fresh iterator over the same input.
+fn protocol<T: PartialEq + Clone, I: Iterator<Item = T>>(mk: &dyn Fn() -> I, lim: usize, k: usize) -> Result<Vec<T>, String> {
+    let mut it = mk();
+    let mut hints = Vec::new();
+    let mut items: Vec<T> = Vec::new();
+    let mut drained = false;
+    while items.len() < lim {
+        hints.push(it.size_hint());
+        match it.next() {
+            Some(v) => items.push(v),
+            None => {
+                drained = true;
+                break;
+            }
+        }
+    }
+    drop(it);
+    let total = items.len();
+    if drained {
+        for (i, (lo, hi)) in hints.iter().enumerate() {
+            let rem = total - i;
+            if *lo > rem || hi.map_or(false, |h| rem > h) {
+                return Err(format!("size_hint-{}-of-{}", i, total));
+            }
+        }
+        if mk().count() != total {
+            return Err("count".into());
+        }
+        if mk().last() != items.last().cloned() {
+            return Err("last".into());
+        }
+        if mk().fold(Vec::new(), |mut a, v| { a.push(v); a }) != items {
+            return Err("fold".into());
+        }
+        let mut fe = Vec::new();
+        mk().for_each(|v| fe.push(v));
+        if fe != items {
+            return Err("for_each".into());
+        }
+        if mk().collect::<Vec<T>>() != items {
+            return Err("collect".into());
+        }
+        let mut ex = Vec::new();
+        ex.extend(mk());
+        if ex != items {
+            return Err("extend".into());
+        }
+        if mk().step_by(2).collect::<Vec<T>>() != items.iter().step_by(2).cloned().collect::<Vec<T>>() {
+            return Err("step_by".into());
+        }
+        if mk().skip(k).collect::<Vec<T>>() != items.iter().skip(k).cloned().collect::<Vec<T>>() {
+            return Err("skip".into());
+        }
+        if mk().enumerate().any(|(i, v)| items[i] != v) {
+            return Err("enumerate".into());
+        }
+        // internal iteration (fold / try_fold and everything std routes through them) on an iterator that has
+        // already been advanced with next() / nth(): the remaining items, each once
+        let mut starts = vec![1usize.min(total), k.min(total), total];
+        starts.dedup();
+        for &n in starts.iter() {
+            let adv = || {
+                let mut it = mk();
+                for _ in 0..n {
+                    let _ = it.next();
+                }
+                it
+            };
+            let rest: Vec<T> = items[n..].to_vec();
+            if adv().fold(Vec::new(), |mut a, v| { a.push(v); a }) != rest {
+                return Err(format!("next{}-then-fold", n));
+            }
+            let mut fe = Vec::new();
+            adv().for_each(|v| fe.push(v));
+            if fe != rest {
+                return Err(format!("next{}-then-for_each", n));
+            }
+            if adv().count() != rest.len() {
+                return Err(format!("next{}-then-count", n));
+            }
+            if adv().last() != rest.last().cloned() {
+                return Err(format!("next{}-then-last", n));
+            }
+            let mut tf = Vec::new();
+            let _ = adv().all(|v| { tf.push(v); true });
+            if tf != rest {
+                return Err(format!("next{}-then-all", n));
+            }
+            if adv().map(|v| v).collect::<Vec<T>>() != rest {
+                return Err(format!("next{}-then-collect", n));
+            }
+            if mk().skip(n).count() != rest.len() {
+                return Err(format!("skip{}-count", n));
+            }
+            if mk().skip(n).last() != rest.last().cloned() {
+                return Err(format!("skip{}-last", n));
+            }
+            if mk().skip(n).fold(Vec::new(), |mut a, v| { a.push(v); a }) != rest {
+                return Err(format!("skip{}-fold", n));
+            }
+            if n >= 1 {
+                let mut it = mk();
+                let _ = it.nth(n - 1);
+                if it.fold(Vec::new(), |mut a, v| { a.push(v); a }) != rest {
+                    return Err(format!("nth{}-then-fold", n - 1));
+                }
+            }
+        }
+    }
+    if drained || k < total {
+        if mk().nth(k) != items.get(k).cloned() {
+            return Err("nth".into());
+        }
+    }
+    // (never poll an iterator again after it returned None: that is unspecified for a non-fused iterator)
+    if (drained && k < total) || k + 1 < total {
+        let mut it = mk();
+        let _ = it.nth(k);
+        if it.next() != items.get(k + 1).cloned() {
+            return Err("nth-then-next".into());
+        }
+    }
+    {
+        // by_ref + take, then the rest from the same iterator
+        let mut it = mk();
+        let mut a: Vec<T> = it.by_ref().take(k.min(total)).collect();
+        let rest = lim - a.len();
+        a.extend(it.take(rest));
+        if a != items {
+            return Err("by_ref".into());
+        }
+    }
+    {
+        // two instances in lock step, a third one used for one item and dropped in between
+        let mut half = mk();
+        let _ = half.next();
+        let mut n = 0usize;
+        for (a, b) in mk().zip(mk()).take(lim) {
+            if n >= total || a != items[n] || b != items[n] {
+                return Err("zip".into());
+            }
+            n += 1;
+            if n == 1 {
+                drop(std::mem::replace(&mut half, mk()));
+            }
+        }
+        if n != total {
+            return Err("zip-len".into());
+        }
+    }
+    Ok(items)
+}
+
+macro_rules! mask_line {
+    ($u:ty, $res:expr) => {{
+        match $res {
+            Ok(items) => {
+                let mut s = String::from("R");
+                for v in items {
+                    s.push(' ');
+                    s.push_str(&(v as $u).to_string());
+                }
+                s
+            }
+            Err(e) => format!("F {}", e),
+        }
+    }};
+}
+
+/// is `l` the complete listing of the submasks (`sub`) / supermasks of `s`?  (strictly monotone + right count => complete)
+macro_rules! listing_ok {
+    ($t:ty, $u:ty, $sub:expr, $s:expr, $l:expr) => {{
+        let s: $u = $s as $u;
+        let l: &Vec<$t> = $l;
+        let free = if $sub { s.count_ones() } else { s.count_zeros() };
+        let mut ok = free < 40 && l.len() as u128 == 1u128 << free && l.first().map(|v| *v as $u) == Some(s);
+        let mut prev: Option<$u> = None;
+        for v in l.iter() {
+            let uv = *v as $u;
+            if $sub {
+                ok &= uv & s == uv && prev.map_or(true, |q| uv < q);
+            } else {
+                ok &= uv & s == s && prev.map_or(true, |q| uv > q);
+            }
+            prev = Some(uv);
+        }
+        ok && prev == Some(if $sub { 0 } else { <$u>::MAX })
+    }};
+}
 
 macro_rules! masks {
     ($t:ty, $u:ty, $toks:expr) => {{
@@ -21,17 +243,79 @@ macro_rules! masks {
         // same-width cast: the signed value with the given bit pattern
         let x = p::<$u>(t[2]) as $t;
         let lim: usize = p(t[3]);
-        let items: Vec<$t> = match t[0] {
-            "sub" => iter_submasks::<$t>(x).take(lim).collect(),
-            "sup" => iter_supermasks::<$t>(x).take(lim).collect(),
+        let res: Result<Vec<$t>, String> = match t[0] {
+            "sub" => Ok(iter_submasks::<$t>(x).take(lim).collect()),
+            "sup" => Ok(iter_supermasks::<$t>(x).take(lim).collect()),
+            "subm" => protocol(&|| iter_submasks::<$t>(x), lim, p(t[4])),
+            "supm" => protocol(&|| iter_supermasks::<$t>(x), lim, p(t[4])),
+            "subnest" | "supnest" => {
+                let sub = t[0] == "subnest";
+                let mut outer: Vec<$t> = Vec::new();
+                let mut bad: Option<String> = None;
+                let it: Box<dyn Iterator<Item = $t>> =
+                    if sub { Box::new(iter_submasks::<$t>(x)) } else { Box::new(iter_supermasks::<$t>(x)) };
+                for s in it.take(lim) {
+                    outer.push(s);
+                    let inner: Vec<$t> = if sub {
+                        iter_submasks::<$t>(s).take(lim).collect()
+                    } else {
+                        iter_supermasks::<$t>(s).take(lim).collect()
+                    };
+                    if bad.is_none() && !listing_ok!($t, $u, sub, s, &inner) {
+                        bad = Some(format!("inner-{}", s as $u));
+                    }
+                }
+                match bad {
+                    None => Ok(outer),
+                    Some(e) => Err(e),
+                }
+            }
+            "subzip" | "supzip" => {
+                let y = p::<$u>(t[4]) as $t;
+                let z = p::<$u>(t[5]) as $t;
+                let lim2: usize = 1 << 20;
+                {
+                    let mut h1 = iter_submasks::<$t>(y);
+                    let mut h2 = iter_supermasks::<$t>(z);
+                    let _ = (h1.next(), h2.next(), h1.next());
+                }
+                let mut a: Box<dyn Iterator<Item = $t>> =
+                    if t[0] == "subzip" { Box::new(iter_submasks::<$t>(x)) } else { Box::new(iter_supermasks::<$t>(x)) };
+                let mut b = iter_submasks::<$t>(y);
+                let mut c = iter_supermasks::<$t>(z);
+                let (mut la, mut lb, mut lc): (Vec<$t>, Vec<$t>, Vec<$t>) = (Vec::new(), Vec::new(), Vec::new());
+                let (mut da, mut db, mut dc) = (false, false, false);
+                while !(da && db && dc) {
+                    if !da {
+                        match a.next() {
+                            Some(v) if la.len() < lim => la.push(v),
+                            _ => da = true,
+                        }
+                    }
+                    if !db {
+                        match b.next() {
+                            Some(v) if lb.len() < lim2 => lb.push(v),
+                            _ => db = true,
+                        }
+                    }
+                    if !dc {
+                        match c.next() {
+                            Some(v) if lc.len() < lim2 => lc.push(v),
+                            _ => dc = true,
+                        }
+                    }
+                }
+                if !listing_ok!($t, $u, true, y, &lb) {
+                    Err("zip-sub-y".to_string())
+                } else if !listing_ok!($t, $u, false, z, &lc) {
+                    Err("zip-sup-z".to_string())
+                } else {
+                    Ok(la)
+                }
+            }
             _ => unreachable!(),
         };
-        let mut s = String::from("R");
-        for v in items {
-            s.push(' ');
-            s.push_str(&(v as $u).to_string());
-        }
-        s
+        mask_line!($u, res)
     }};
 }
 
@@ -64,6 +348,29 @@ macro_rules! maskck {
     }};
 }
 
+macro_rules! by_type {
+    ($m:ident, $t:expr) => {
+        match $t[1] {
+            "u8" => $m!(u8, u8, $t),
+            "i8" => $m!(i8, u8, $t),
+            "u16" => $m!(u16, u16, $t),
+            "i16" => $m!(i16, u16, $t),
+            "u32" => $m!(u32, u32, $t),
+            "i32" => $m!(i32, u32, $t),
+            "u64" => $m!(u64, u64, $t),
+            "i64" => $m!(i64, u64, $t),
+            "u128" => $m!(u128, u128, $t),
+            "i128" => $m!(i128, u128, $t),
+            "usize" => $m!(usize, usize, $t),
+            "isize" => $m!(isize, usize, $t),
+            other => {
+                eprintln!("harness: unknown type {}", other);
+                std::process::exit(3)
+            }
+        }
+    };
+}
+
 fn cells<I: Iterator<Item = (usize, usize)>>(it: I) -> String {
     let mut s = String::from("R");
     for (a, b) in it.take(NB_LIMIT) {
@@ -72,68 +379,328 @@ fn cells<I: Iterator<Item = (usize, usize)>>(it: I) -> String {
     s
 }
 
+/// protocol checks for a neighbour iterator; a second iterator (the transposed cell) is polled in turn
+fn cells_m<I: Iterator<Item = (usize, usize)>>(mk: &dyn Fn(usize, usize, usize, usize) -> I, t: &[&str]) -> String {
+    let (n, m, i, j): (usize, usize, usize, usize) = (p(t[1]), p(t[2]), p(t[3]), p(t[4]));
+    let k: usize = p(t[5]);
+    let items = match protocol(&|| mk(n, m, i, j), NB_LIMIT, k) {
+        Ok(v) => v,
+        Err(e) => return format!("F {}", e),
+    };
+    let other_ref: Vec<(usize, usize)> = mk(m, n, j, i).take(NB_LIMIT).collect();
+    let (mut a, mut b) = (mk(n, m, i, j), mk(m, n, j, i));
+    let (mut la, mut lb) = (Vec::new(), Vec::new());
+    let (mut da, mut db) = (false, false);
+    while !(da && db) {
+        if !da {
+            match a.next() {
+                Some(v) if la.len() < NB_LIMIT => la.push(v),
+                _ => da = true,
+            }
+        }
+        if !db {
+            match b.next() {
+                Some(v) if lb.len() < NB_LIMIT => lb.push(v),
+                _ => db = true,
+            }
+        }
+    }
+    if la != items || lb != other_ref {
+        return "F interleave".into();
+    }
+    let swapped: Vec<(usize, usize)> = items.iter().map(|&(a, b)| (b, a)).collect();
+    let mut o2 = other_ref.clone();
+    let mut s2 = swapped.clone();
+    o2.sort();
+    s2.sort();
+    if o2 != s2 {
+        return "F transpose".into();
+    }
+    cells(items.into_iter())
+}
+
+fn perm_line<T>(items: Vec<Vec<T>>, show: &dyn Fn(&T) -> String) -> String {
+    let mut s = String::from("R");
+    for item in items {
+        for x in item.iter() {
+            s.push(' ');
+            s.push_str(&show(x));
+        }
+        s.push_str(" ;");
+    }
+    s
+}
+
+fn np_line<T>(r: bool, v: &[T], show: &dyn Fn(&T) -> String) -> String {
+    let mut s = format!("R {}", if r { 1 } else { 0 });
+    for x in v {
+        s.push(' ');
+        s.push_str(&show(x));
+    }
+    s
+}
+
+/// ordered by `key` only; `tag` identifies the object
+#[derive(Clone, Debug)]
+struct Keyed {
+    key: i64,
+    tag: u32,
+}
+impl PartialEq for Keyed {
+    fn eq(&self, o: &Self) -> bool {
+        self.key == o.key
+    }
+}
+impl Eq for Keyed {}
+impl PartialOrd for Keyed {
+    fn partial_cmp(&self, o: &Self) -> Option<Ordering> {
+        Some(self.cmp(o))
+    }
+}
+impl Ord for Keyed {
+    fn cmp(&self, o: &Self) -> Ordering {
+        self.key.cmp(&o.key)
+    }
+}
+
+/// counts creations (incl. clones) and drops
+struct Counted {
+    v: i64,
+    live: Rc<Cell<i64>>,
+    drops: Rc<Cell<i64>>,
+    pad: String,
+}
+impl Counted {
+    fn new(v: i64, live: &Rc<Cell<i64>>, drops: &Rc<Cell<i64>>) -> Self {
+        live.set(live.get() + 1);
+        Counted { v, live: live.clone(), drops: drops.clone(), pad: format!("pad-{}", v) }
+    }
+}
+impl Clone for Counted {
+    fn clone(&self) -> Self {
+        Counted::new(self.v, &self.live, &self.drops)
+    }
+}
+impl Drop for Counted {
+    fn drop(&mut self) {
+        self.live.set(self.live.get() - 1);
+        self.drops.set(self.drops.get() + 1);
+    }
+}
+impl PartialEq for Counted {
+    fn eq(&self, o: &Self) -> bool {
+        self.v == o.v
+    }
+}
+impl Eq for Counted {}
+impl PartialOrd for Counted {
+    fn partial_cmp(&self, o: &Self) -> Option<Ordering> {
+        Some(self.cmp(o))
+    }
+}
+impl Ord for Counted {
+    fn cmp(&self, o: &Self) -> Ordering {
+        self.v.cmp(&o.v)
+    }
+}
+
+fn to_str(v: i64) -> String {
+    format!("{:05}", v)
+}
+fn to_tup(v: i64) -> (i32, i32) {
+    (v.div_euclid(4) as i32, v.rem_euclid(4) as i32)
+}
+fn of_tup(t: &(i32, i32)) -> String {
+    (t.0 as i64 * 4 + t.1 as i64).to_string()
+}
+
+fn npg(t: &[&str]) -> String {
+    let d: Vec<i64> = t[2..].iter().map(|s| p::<i64>(s)).collect();
+    match t[1] {
+        "u8" => {
+            let mut v: Vec<u8> = d.iter().map(|&x| x as u8).collect();
+            let r = next_permutation(&mut v);
+            np_line(r, &v, &|x| x.to_string())
+        }
+        "str" => {
+            let mut v: Vec<String> = d.iter().map(|&x| to_str(x)).collect();
+            let r = next_permutation(&mut v);
+            np_line(r, &v, &|x| x.parse::<i64>().map_or("?".to_string(), |n| n.to_string()))
+        }
+        "tup" => {
+            let mut v: Vec<(i32, i32)> = d.iter().map(|&x| to_tup(x)).collect();
+            let r = next_permutation(&mut v);
+            np_line(r, &v, &of_tup)
+        }
+        "key" => {
+            let mut v: Vec<Keyed> = d.iter().enumerate().map(|(i, &x)| Keyed { key: x, tag: i as u32 }).collect();
+            let r = next_permutation(&mut v);
+            let mut tags: Vec<u32> = v.iter().map(|k| k.tag).collect();
+            tags.sort();
+            let same_objects = tags.iter().enumerate().all(|(i, &tg)| tg == i as u32)
+                && v.iter().all(|k| d[k.tag as usize] == k.key);
+            if !same_objects {
+                return "F objects".into();
+            }
+            np_line(r, &v, &|x| x.key.to_string())
+        }
+        "unit" => {
+            let mut v: Vec<()> = d.iter().map(|_| ()).collect();
+            let r = next_permutation(&mut v);
+            np_line(r, &v, &|_| "0".to_string())
+        }
+        "drop" => {
+            let live = Rc::new(Cell::new(0i64));
+            let drops = Rc::new(Cell::new(0i64));
+            let mut v: Vec<Counted> = d.iter().map(|&x| Counted::new(x, &live, &drops)).collect();
+            let r = next_permutation(&mut v);
+            if live.get() != d.len() as i64 || drops.get() != 0 || v.iter().any(|c| c.pad != format!("pad-{}", c.v)) {
+                return "F live-after-call".into();
+            }
+            let line = np_line(r, &v, &|x| x.v.to_string());
+            drop(v);
+            if live.get() != 0 || drops.get() != d.len() as i64 {
+                return "F drops".into();
+            }
+            line
+        }
+        "arr" => {
+            macro_rules! arr {
+                ($n:expr) => {{
+                    let mut a: [i64; $n] = [0; $n];
+                    a.copy_from_slice(&d);
+                    let r = next_permutation(&mut a);
+                    np_line(r, &a, &|x| x.to_string())
+                }};
+            }
+            match d.len() {
+                0 => arr!(0),
+                1 => arr!(1),
+                2 => arr!(2),
+                3 => arr!(3),
+                4 => arr!(4),
+                5 => arr!(5),
+                6 => arr!(6),
+                _ => {
+                    let mut b: Box<[i64]> = d.clone().into_boxed_slice();
+                    let r = next_permutation(&mut b);
+                    np_line(r, &b, &|x| x.to_string())
+                }
+            }
+        }
+        other => {
+            eprintln!("harness: unknown element kind {}", other);
+            std::process::exit(3)
+        }
+    }
+}
+
+fn ipg(t: &[&str]) -> String {
+    let lim: usize = p(t[2]);
+    let d: Vec<i64> = t[3..].iter().map(|s| p::<i64>(s)).collect();
+    match t[1] {
+        "u8" => perm_line(iter_permutations(d.iter().map(|&x| x as u8).collect::<Vec<u8>>()).take(lim).collect(), &|x| x.to_string()),
+        "str" => perm_line(iter_permutations(d.iter().map(|&x| to_str(x)).collect::<Vec<String>>()).take(lim).collect(),
+                           &|x| x.parse::<i64>().map_or("?".to_string(), |n| n.to_string())),
+        "tup" => perm_line(iter_permutations(d.iter().map(|&x| to_tup(x)).collect::<Vec<(i32, i32)>>()).take(lim).collect(), &of_tup),
+        "drop" => {
+            let live = Rc::new(Cell::new(0i64));
+            let drops = Rc::new(Cell::new(0i64));
+            let v: Vec<Counted> = d.iter().map(|&x| Counted::new(x, &live, &drops)).collect();
+            let items: Vec<Vec<Counted>> = iter_permutations(v).take(lim).collect();
+            // the iterator (with its own copy of the data) is gone: exactly the yielded items are alive
+            if live.get() != (items.len() * d.len()) as i64 {
+                return "F live-after-drain".into();
+            }
+            let line = perm_line(items.iter().map(|it| it.iter().map(|c| c.v).collect::<Vec<i64>>()).collect(), &|x| x.to_string());
+            drop(items);
+            if live.get() != 0 {
+                return "F drops".into();
+            }
+            line
+        }
+        other => {
+            eprintln!("harness: unknown element kind {}", other);
+            std::process::exit(3)
+        }
+    }
+}
+
 fn main() {
     vh::serve(|t| match t[0] {
-        "sub" | "sup" => match t[1] {
-            "u8" => masks!(u8, u8, t),
-            "i8" => masks!(i8, u8, t),
-            "u16" => masks!(u16, u16, t),
-            "i16" => masks!(i16, u16, t),
-            "u32" => masks!(u32, u32, t),
-            "i32" => masks!(i32, u32, t),
-            "u64" => masks!(u64, u64, t),
-            "i64" => masks!(i64, u64, t),
-            "u128" => masks!(u128, u128, t),
-            "i128" => masks!(i128, u128, t),
-            "usize" => masks!(usize, usize, t),
-            "isize" => masks!(isize, usize, t),
-            other => {
-                eprintln!("harness: unknown type {}", other);
-                std::process::exit(3)
-            }
-        },
-        "subck" | "supck" => match t[1] {
-            "u8" => maskck!(u8, u8, t),
-            "i8" => maskck!(i8, u8, t),
-            "u16" => maskck!(u16, u16, t),
-            "i16" => maskck!(i16, u16, t),
-            "u32" => maskck!(u32, u32, t),
-            "i32" => maskck!(i32, u32, t),
-            "u64" => maskck!(u64, u64, t),
-            "i64" => maskck!(i64, u64, t),
-            "u128" => maskck!(u128, u128, t),
-            "i128" => maskck!(i128, u128, t),
-            "usize" => maskck!(usize, usize, t),
-            "isize" => maskck!(isize, usize, t),
-            other => {
-                eprintln!("harness: unknown type {}", other);
-                std::process::exit(3)
-            }
-        },
+        "sub" | "sup" | "subm" | "supm" | "subnest" | "supnest" | "subzip" | "supzip" => by_type!(masks, t),
+        "subck" | "supck" => by_type!(maskck, t),
         "np" => {
             let mut v: Vec<i64> = t[1..].iter().map(|s| p::<i64>(s)).collect();
             let r = next_permutation(&mut v);
-            let mut s = format!("R {}", if r { 1 } else { 0 });
-            for x in v {
-                s.push_str(&format!(" {}", x));
-            }
-            s
+            np_line(r, &v, &|x| x.to_string())
         }
+        "npsub" => {
+            let (a, b): (usize, usize) = (p(t[1]), p(t[2]));
+            let orig: Vec<i64> = t[3..].iter().map(|s| p::<i64>(s)).collect();
+            let mut v = orig.clone();
+            let r = next_permutation(&mut v[a..b]);
+            if v[..a] != orig[..a] || v[b..] != orig[b..] {
+                return "F outside-the-range".into();
+            }
+            np_line(r, &v[a..b], &|x| x.to_string())
+        }
+        "npg" => npg(t),
         "ip" => {
             let lim: usize = p(t[1]);
             let v: Vec<i64> = t[2..].iter().map(|s| p::<i64>(s)).collect();
-            let mut s = String::from("R");
-            for item in iter_permutations(v).take(lim) {
-                for x in item {
-                    s.push_str(&format!(" {}", x));
-                }
-                s.push_str(" ;");
+            perm_line(iter_permutations(v).take(lim).collect(), &|x| x.to_string())
+        }
+        "ipg" => ipg(t),
+        "ipm" => {
+            let lim: usize = p(t[1]);
+            let k: usize = p(t[2]);
+            let v: Vec<i64> = t[3..].iter().map(|s| p::<i64>(s)).collect();
+            match protocol(&|| iter_permutations(v.clone()), lim, k) {
+                Ok(items) => perm_line(items, &|x| x.to_string()),
+                Err(e) => format!("F {}", e),
             }
-            s
+        }
+        "ipzip" => {
+            let lim: usize = p(t[1]);
+            let n1: usize = p(t[2]);
+            let d1: Vec<i64> = t[3..3 + n1].iter().map(|s| p::<i64>(s)).collect();
+            let d2: Vec<i64> = t[3 + n1..].iter().map(|s| p::<i64>(s)).collect();
+            let alone: Vec<Vec<i64>> = iter_permutations(d2.clone()).take(lim).collect();
+            {
+                let mut half = iter_permutations(d2.clone());
+                let _ = (half.next(), half.next());
+            }
+            let mut a = iter_permutations(d1);
+            let mut b = iter_permutations(d2);
+            let (mut la, mut lb): (Vec<Vec<i64>>, Vec<Vec<i64>>) = (Vec::new(), Vec::new());
+            let (mut da, mut db) = (false, false);
+            while !(da && db) {
+                if !da {
+                    match a.next() {
+                        Some(v) if la.len() < lim => la.push(v),
+                        _ => da = true,
+                    }
+                }
+                if !db {
+                    match b.next() {
+                        Some(v) if lb.len() < lim => lb.push(v),
+                        _ => db = true,
+                    }
+                }
+            }
+            if lb != alone {
+                "F second-iterator".into()
+            } else {
+                perm_line(la, &|x| x.to_string())
+            }
         }
         "n4" => cells(iter_neighbours_4(p(t[1]), p(t[2]), p(t[3]), p(t[4]))),
         "n4d" => cells(iter_neighbours_4d(p(t[1]), p(t[2]), p(t[3]), p(t[4]))),
         "n8" => cells(iter_neighbours_8(p(t[1]), p(t[2]), p(t[3]), p(t[4]))),
+        "n4m" => cells_m(&|n, m, i, j| iter_neighbours_4(n, m, i, j), t),
+        "n4dm" => cells_m(&|n, m, i, j| iter_neighbours_4d(n, m, i, j), t),
+        "n8m" => cells_m(&|n, m, i, j| iter_neighbours_8(n, m, i, j), t),
         other => {
             eprintln!("harness: unknown op {}", other);
             std::process::exit(3)
